@@ -78,3 +78,14 @@ Theorem C01_pre_advanced_refuted :
   o_result (exec (c 0 3%N)) = RList [10; 11; 12; 13; 14; 15]%Z.  (* not advanced *)
 Proof. vm_compute. repeat split. Qed.
 Print Assumptions C01_pre_advanced_refuted.
+
+(** ... and the failure class is exactly characterised: for every run over a source advanced by
+    [k >= 1] with [n >= 1] elements left, whatever the schedule, the map-only ordered collect
+    panics; with [k = 0] it returns the sequential value ([C15_parallel_value_is_sequential_value]) *)
+From OrxPar Require Import ExecP.
+Theorem C01_pre_advanced_class : forall (pe : nat -> list (event Z)) (k n : nat) (wl : list worker),
+  0 < k -> 0 < n ->
+  finish TCollectVec pe n KMap k wl = RPanic /\ finish TCollectSplit pe n KMap k wl = RPanic /\
+  forall tg old, finish (TCollectInto tg old) pe n KMap k wl = RPanic.
+Proof. intros pe k n wl Hk Hn. apply advanced_map_collect_panics; assumption. Qed.
+Print Assumptions C01_pre_advanced_class.
